@@ -396,6 +396,11 @@ class Lowerer:
         if msp:
             self.note('std::shared_ptr<T> lowered to T* (ownership and reference counting are not modelled)')
             return Ty('ptr', to=self.parse_type(split_top(msp.group(3))[0]))
+        mit = re.match(r'^(const\s+)?__gnu_cxx::__normal_iterator<(.*)>$', s)
+        if mit:
+            # std::vector<T>::iterator is a thin wrapper around T* (libstdc++); the vector model hands out raw pointers
+            self.note('std::vector iterator lowered to a raw element pointer')
+            return self.parse_type(split_top(mit.group(2))[0])
         if re.match(r'^(const\s+)?std::function<', s):
             return Ty('rec', name='std_function_opaque', key='std::function<opaque>')
         if '(' in s and not s.startswith('(anonymous') and '(anonymous namespace)' not in s and '(lambda' not in s:
